@@ -39,12 +39,10 @@ T = {
  "C09": ("Theorems C09_request_suffix / C09_request_local / C09_response_suffix / C09_request_pipeline / C09_response_pipeline: a Complete answer is "
          "unchanged by any appended bytes, depends only on the consumed bytes, and a concatenation of messages is split by fresh parsers at the "
          "message lengths (responses: by the boundary). Corollaries of the resumption and locality lemmas, induction on the number of messages.", ""),
- "C10": ("Theorems C10_request_roundtrip / C10_response_roundtrip / C10_generated_is_grammatical: for every well-formed value (WfRequest / WfResponse, pinned in the file) the generated "
-         "bytes are accepted as one message consuming every byte, the parsed value equals the original, and regenerating gives the same bytes; proved from grammar completeness, "
-         "parse_dec (show_dec n) = n, and trimming lemmas.",
+ "C10": ("Theorems C10_request_roundtrip / C10_response_roundtrip / C10_generated_is_grammatical: for every well-formed value (WfRequest / WfResponse, pinned in the file; methods: any UTF-8 text without SP and CRLF, in particular every graphic-ASCII token, C10_graphic_methods_are_legal) the generated bytes are accepted as one message consuming every byte, the parsed value equals the original, and regenerating gives the same bytes; proved from grammar completeness, parse_dec (show_dec n) = n, trimming lemmas and UTF-8 validity across concatenation.",
          "Relative to the per-target premise uri_ok (rhymuri: Display then parse is the identity, displayed text is graphic ASCII), checked for every generated target by the run; K2 is where it fails. Header folding on generate is not modelled (values needing folding are outside the statement)."),
- "C11": ("Theorems C11_every_accepted_response_reserialises + C11_accepted_response_wellformed: every response the parser accepts (Content-Length, chunked or body-less) is a well-formed value -- legal names, printable trimmed values, for chunked input the C12 rewriting with a single Content-Length equal to the de-chunked body (C11_dechunked_headers_wellformed) -- and generating from it gives a message that parses to the same value with the whole output consumed. C11_request_reserialise, C11_parsed_headers_wellformed: the same for an accepted request with a graphic method, uri_ok target and re-serialised lines within the limits.",
-         "Requests whose method contains non-graphic bytes are covered by the correspondence run only (parse->generate->parse on both sides for every case). uri_ok is the premise about rhymuri; known findings K2, K3 are where it fails. Bodies longer than usize::MAX are excluded by an explicit premise."),
+ "C11": ("Theorems C11_every_accepted_response_reserialises + C11_accepted_response_wellformed: every response the parser accepts (Content-Length, chunked or body-less) is a well-formed value -- legal names, printable trimmed values, for chunked input the C12 rewriting with a single Content-Length equal to the de-chunked body (C11_dechunked_headers_wellformed) -- and generating from it gives a message that parses to the same value with the whole output consumed. C11_request_reserialise: the same for every accepted request (any method the parser stores: UTF-8 without SP/CRLF), given a uri_ok target and re-serialised lines within the limits (the property's own quantifier).",
+         "uri_ok is the premise about rhymuri (Display then parse is the identity, displayed text graphic ASCII), checked per case by the run; known findings K2, K3 are where it fails. Bodies longer than usize::MAX are excluded by an explicit premise."),
  "C12": ("Theorems C12_content_length (single value = decoded body length), C12_transfer_encoding (final coding removed, the others kept in order in one header joined by ', ', "
          "no header when none remain), C12_no_trailer_header, C12_other_headers (originals then non-framing trailer fields, order and values kept), C12_trailer_framing_fields_ignored, "
          "C12_parser_stores_rewrite; list lemmas over the header-collection model (Proofs/HeaderAlgebra.v).",
